@@ -470,7 +470,7 @@ func main() {
 		}
 	}
 	// virtual packages
-	for _, vp := range []string{"rt", "simsync", "simrand"} {
+	for _, vp := range []string{"rt", "simsync", "simrand", "hsync"} {
 		ents, err := os.ReadDir(filepath.Join(*simDir, vp))
 		if err != nil {
 			errs = append(errs, err.Error())
